@@ -280,7 +280,7 @@ PROPS = {
               "(3) no goroutine waits forever on the shared type caches (C17 no_goroutine_waits_forever, C16 failed_generation_leaves_fresh_cache: the hang of defect D09 cannot return). "
               "Harness: every input (empty, header-only, random, mutated / truncated / length-inflated valid CBE and CTE documents, huge array headers, containers nested 10 .. 3 000 000 deep through every opener kind (lists, maps, nodes, edges, records, record types, markers, and openers separated by complete typed arrays or comments), up to 50 000 (thorough: 200 000) tiny tokens) is given to all 14 decode/unmarshal entry points (universal, CBE, CTE; reader and document forms; with and without a rules receiver) with rules on and off and 10 template kinds incl. chan/func/struct-with-chan; every seventh case marshals a Go value (unsupported kinds at top level, in fields, in interfaces, never-seen struct types, generated supported values, values that contain themselves through a pointer / slice / map / two nodes, linked lists of 100-5000 nodes; recursion support on and off) through the 4 marshal entry points. In-process recover + 30 s watchdog; the process runs under RLIMIT_AS 8 GiB and writes the call it is about to make to a file first, so a process killed by a Go fatal error (stack overflow, out of memory) is reported with its input",
         note="partial (level other): Go run-time fatal errors (stack exhaustion, out of memory) and termination of the ANTLR-generated CTE parser are observed under a watchdog and an address-space limit, not proved; panic containment is proved from extracted syntactic facts (a recover that re-panics, or a goroutine started inside an entry point, would not be seen by the extractor: neither exists in the pinned source, and the harness observes escapes directly). Three defects found by this check or by the sub-agent that seeded it were repaired: fbf3506 (3 000 000 nested '[' : fatal stack overflow in the recursive-descent parser), aa3e03d (marshaling a cyclic value: fatal stack overflow in the iterator), and earlier 56ca86c, bd060b4",
-        level="other", n_quick=1600, n_thorough=16000, shards=16, timeout_quick=900, timeout_thorough=14000, rlimit_as_gb=8,
+        level="other", n_quick=1200, n_thorough=16000, shards=16, timeout_quick=1500, timeout_thorough=14000, rlimit_as_gb=8,
         lean_modules=["CE.Props.C07", "CE.Gen.CheckEntry", "CE.Cbe.Progress"],
         rule="case i: i mod 7 = 6 marshals a value of one of 9 kinds; otherwise one of 14 input classes x one of 10 template kinds x rules on (2/3) / off, given to all 14 entry points; distinct by input bytes; non-trivial = longer than 2 bytes",
         trusted_base=COMMON_TB + ["extract/main.go entrypoints: go/ast reading of deferred recover / parameter indexing / callees", "helpers listed in CE.Api.safeCallees (constructors, bufio/bytes wrappers, the two dispatch switches) are assumed not to panic", "Go runtime: recover() stops a panic raised in the same goroutine"],
